@@ -135,7 +135,15 @@ class CompoundQuery(qcore.Query):
         # If there's an unfielded Every inside, then this query is Every
         if any((isinstance(q, Every) and q.fieldname is None)
                for q in subqueries):
-            return Every()
+            if not self.intersect_merge:
+                return Every()
+            # Under an intersection an unfielded Every is the neutral element:
+            # drop it instead of letting it swallow the other clauses
+            subqueries = [q for q in subqueries
+                          if not (isinstance(q, Every)
+                                  and q.fieldname is None)]
+            if all(q is qcore.NullQuery for q in subqueries):
+                return Every()
 
         # Merge ranges and Everys
         everyfields = set()
